@@ -16,9 +16,30 @@ Proof. intros ops s. apply code_variants_is_model, wf_defs. Qed.
 Print Assumptions C12_code_variants.
 
 
+(* (T) the exception facts the model's dispatcher clauses rest on, read from the source on this run: an absent key is
+   detected by `except KeyError`; a KeyError/AttributeError leaving the CALL of the selected variant is taken for a
+   registry miss (refill + retry: clause OKeyErr of Discr.field_body, known finding variant-keyerror-misreported), after
+   the retry only KeyError -> SuitableVariantNotFound; MissingDiscriminatorError and SuitableVariantNotFoundError of a
+   nested dispatcher are NOT caught by the outer one (they propagate: clauses OMissing / ONotFound of Discr.enter_with);
+   a class without the attribute in its own __dict__ is skipped *)
+Theorem C12_code_exceptions :
+  catches key_lookup_handler [EKeyError] = true
+  /\ catches variant_call_handler [EKeyError] = true /\ catches variant_call_handler [EAttributeError] = true
+  /\ catches variant_call_handler missing_error_bases = false
+  /\ catches variant_call_handler notfound_error_bases = false
+  /\ catches retry_handler [EKeyError] = true /\ catches retry_handler [EAttributeError] = false
+  /\ catches retry_handler missing_error_bases = false /\ catches retry_handler notfound_error_bases = false
+  /\ catches own_tag_lookup_handler [EKeyError] = true
+  (* value[field] on a non-mapping and hash(tag) of an unhashable value raise TypeError: caught right there, and never
+     by the handlers around the variant call *)
+  /\ catches non_mapping_handler [ETypeError] = true /\ catches hash_handler [ETypeError] = true
+  /\ catches key_lookup_handler [ETypeError] = false /\ catches variant_call_handler [ETypeError] = false.
+Proof. vm_compute. repeat split. Qed.
+Print Assumptions C12_code_exceptions.
+
 (* non-vacuity: a three-level forest with a diamond; the translated code walks it depth first in definition order *)
 Example C12_code_variants_nonvacuous :
-  let ops := [Define [] [] [] []; Define [0] [] [] []; Define [0] [] [] []; Define [1; 2] [] [] []; Define [1] [] [] []] in
+  let ops := [Define [] [] [] [] false; Define [0] [] [] [] false; Define [0] [] [] [] false; Define [1; 2] [] [] [] false; Define [1] [] [] [] false] in
   iter_all_subclasses (S (length (defs ops))) (subclasses_of (defs ops)) 0 = [1; 3; 4; 2; 3]
-  /\ variants (defs ops) (Site [0] true true false false false false 0) = [1; 3; 4; 2; 3; 0].
+  /\ variants (defs ops) (Site [0] true true false false false false 0 0) = [1; 3; 4; 2; 3; 0].
 Proof. vm_compute. split; reflexivity. Qed.
